@@ -682,7 +682,8 @@ class SigmaNumber(SigmaType):
             if not isfinite(f):
                 raise ValueError("Invalid number")
             i = int(init_number)
-            if i == f:
+            if i == f or isinstance(init_number, (int, str)):
+                # a whole number stays exact, also beyond the precision of a float (2**53 + 1)
                 self.number = i
             else:
                 self.number = f
